@@ -188,7 +188,6 @@ func genScenario(r *rng, k int, tier string) *scenario {
 	live := map[int]bool{}
 	terminalOp := map[int]bool{} // a terminal operation has been scripted for this bar
 	ticksSince := map[int]int{}  // refreshes scripted since the bar's first possibly terminal operation
-	hasSucc := map[int]bool{}
 	steps := 6 + r.intn(14)
 	delayEnded := !sc.delay
 	add := func(s string) {
@@ -201,21 +200,8 @@ func genScenario(r *rng, k int, tier string) *scenario {
 	}
 	for s := 0; s < steps || added < n; s++ {
 		if added < n && (added == 0 || r.chance(1, 3)) {
-			// known finding (C17): a successor created after its predecessor was flushed, or a
-			// second successor, is never promoted; generated scenarios stay out of that region
-			// (in manual mode flush sees a bar's second terminal frame at the second refresh after
-			// its terminal operation, so a successor may still be created before that)
-			late := func(a int) bool {
-				if sc.mode == "manual" && ticksSince[a] < 2 {
-					return false
-				}
-				return terminalOp[a]
-			}
-			if a := sc.bars[added].after; a >= 0 && (late(a) || hasSucc[a]) {
-				sc.bars[added].after = -1
-			} else if a >= 0 {
-				hasSucc[a] = true
-			}
+			// a successor may be created at any time — before or after its predecessor's final state has been
+			// flushed — and a predecessor may have any number of successors (D7, repaired in /repo)
 			add(fmt.Sprintf("add %d", added))
 			live[added] = true
 			if a := sc.bars[added].after; a >= 0 && !sc.pop && r.chance(1, 2) {
